@@ -283,6 +283,7 @@ def run(ck):
                'D2 inside gauss_helper the matrix is written only through row_add(a,b), with a != b at every site by a recognised justification (guard, excluding range, chunk-map idiom)',
                'D3 inverse returns Some only for a square matrix whose full reduction of a clone has rank == rows, and returns the proxy that started as the identity; '
                'row_add/col_add are transposes of each other and follow the trait doc (add first INTO second); Mul reference impl is the F2 matrix product and the 3 forwarders forward in operand order')
+    ck.decided('D4 every column block and column is examined for a pivot (no early exit from those loops); the null space is returned empty early only at rank == columns')
     ck.not_decided('that the result is a (reduced) echelon form', 'rank / null-space values', 'algebraic laws of transpose/stack/mul as value equalities')
     f = ck.fn(GAUSS)
     pm = hir.parent_map(f['hir'])
@@ -340,6 +341,31 @@ def run(ck):
             ck.ob('R-OPS', key, ok, ck.site(key), why, sample={'applications': summ})
     ck.floor('R-OPS', len(muls), 4)
     ck.floor('R-TABLE-matmul', nref, 1)
+    # D4: every column block and every column is examined for a pivot (no early exit from the block / column loops of the forward phase),
+    #     and the null space is empty only when rank == number of columns
+    # the loops are identified structurally: the nest of `for` loops around the statement that records a pivot column
+    def has_push(n):
+        return any(c.get('k') == 'MethodCall' and c['name'] == 'push' and hir.local_name(c['recv']) == 'pivot_cols' for c in hir.calls(n['body']))
+    nest = [n for n in hir.find(f['hir'], 'For') if has_push(n)]     # pre-order: outermost first
+    sec_loops = nest[:1]
+    col_loops = nest[1:2]
+    for nm, loops in (('column-blocks', sec_loops), ('columns', col_loops)):
+        ok = len(loops) == 1
+        why = 'loop over the %s not found' % nm
+        if ok:
+            exits = [x for x in hir.nodes(loops[0]['body'], into_closures=False) if (x.get('k') in ('Break', 'Continue') and x.get('target') == loops[0]['id'] and x.get('k') == 'Break') or x.get('k') == 'Ret']
+            ok = not exits
+            why = 'the forward phase leaves the loop over the %s early (line %s): later %s are never examined for a pivot, so the reported rank can be too small' % (nm, hir.line(exits[0]) if exits else '?', nm)
+        ck.ob('R-LOOP-complete', GAUSS + '/' + nm, ok, ck.site(GAUSS), why)
+    nk = 'linalg::Mat2::nullspace'
+    nf = ck.fn(nk)
+    early = [p for p in paths.return_paths(nf) if p.kind == 'return']
+    ok = len(early) >= 1
+    for p in early:
+        conds = [(hir.pp(c[1]), c[2]) for c in p.conds if c[0] == 'cond']
+        ok = ok and conds == [('(rank == n)', True)] and 'new' in hir.pp(p.ret)
+    nlet = [n for n in hir.nodes(nf['hir']) if n.get('k') == 'Let' and n['pat'].get('k') == 'Bind' and n['pat']['name'] == 'n' and 'num_cols' in hir.pp(n['init'])]
+    ck.ob('R-PATH', nk + '/empty-only-at-full-column-rank', ok and len(nlet) == 1, ck.site(nk), 'the null space may be returned empty early only when rank == number of columns (its dimension is columns - rank): early returns %s' % [[(hir.pp(c[1]), c[2]) for c in p.conds if c[0] == 'cond'] for p in early])
     # positive controls
     fx = fixture()
     g = fx['fns']['linalg::Mat2::gauss_helper']
